@@ -50,7 +50,7 @@ RULE = ("API cases: one case = (dataset, naming, k schemes); every one of 7 star
         "(dataset, naming, scheme, configuration) resp. (table, vector)." % len(SCHEMES))
 SCOPE = {"quick": "701 exhaustive datasets (n<=3, m<=2) x 2 schemes + 700 sampled (n<=7, m<=5) x 5 schemes, "
                   "7 configurations; 320 kernel cases x 6 tables x 5 vectors x 2 execution modes (n<=7)",
-         "thorough": "all datasets n<=3 m<=3 (18.3k) x 1 scheme, n=4 m<=2 (22.6k) x 1 scheme, 5000 sampled (n<=7, "
+         "thorough": "all datasets n<=3 m<=3 (18.3k) x 1 scheme, n=4 m<=2 (22.6k) x 1 scheme, 10000 sampled (n<=7, "
                      "m<=5) x 5 schemes, 7 configurations; 1500 kernel cases"}
 EXHAUSTIVE = {"quick": False, "thorough": False}
 CHUNK = 4
@@ -77,7 +77,7 @@ def _gen_cases_main(tier, seed):
                 idx += 1
     rng = random.Random(seed * 1299709 + 8)
     seen = set()
-    for i in range(700 if quick else 5000):
+    for i in range(700 if quick else 10000):
         d = D.random_dataset(rng, 7, 5, complete=(i % 5 == 0), n_min=3)
         kind = kinds[i % len(kinds)]
         sch = [SCHEMES[(4 * i + j) % ns] for j in range(4)] + D.grid_schemes(rng, 1)
